@@ -359,6 +359,9 @@ def run(ctx):
                       "no attribute store in _pack", key=f"R2.9:{c9.name}._pack:caches-packed-form")
     ctx.floor("R2.9", "_pack methods of field types", n9, 8)
 
+    # ------------------------------------------------------------------ R2.10 (sibling rule) every member of a group gets its descriptor frame
+    ctx.import_rule("C03", "R3.8", "R2.10", "the bytes of a grouped record reference the identifier of every member: each member's descriptor is in the list the packer emits frames from")
+
 
 
 def _try_fold(prog, module, e):
